@@ -186,6 +186,28 @@ def _fix_imp():
         spec.loader.exec_module(module)
         return module
     mod.load_source = load_source
+    mod.PY_SOURCE = 1
+    mod.PY_COMPILED = 2
+    mod.C_EXTENSION = 3
+    mod.PKG_DIRECTORY = 5
+
+    def load_module(name, file, pathname, description):
+        # source modules and packages only (what yapsy's plugin manager needs)
+        if description[2] == mod.PKG_DIRECTORY:
+            pathname = os.path.join(pathname, '__init__.py')
+        import importlib.machinery
+        loader = importlib.machinery.SourceFileLoader(name, pathname)
+        spec = importlib.util.spec_from_file_location(name, pathname, loader=loader)
+        module = importlib.util.module_from_spec(spec)
+        sys.modules[name] = module
+        spec.loader.exec_module(module)
+        return module
+    mod.load_module = load_module
+
+    def acquire_lock():
+        pass
+    mod.acquire_lock = acquire_lock
+    mod.release_lock = acquire_lock
     sys.modules['imp'] = mod
 
 
